@@ -142,7 +142,13 @@ type Client struct {
 
 // NewClient opens harness client i (address 127.A.B.(10+i):6000+port).
 func (e *Env) NewClient(i int, port uint16) *Client {
-	addr := netip.AddrPortFrom(e.IP(byte(10+i)), 6000+port)
+	return e.NewClientAt(i, byte(10+i), port)
+}
+
+// NewClientAt opens harness client i at 127.A.B.ipLast:6000+port (several
+// clients may share one IP address and differ only in the port).
+func (e *Env) NewClientAt(i int, ipLast byte, port uint16) *Client {
+	addr := netip.AddrPortFrom(e.IP(ipLast), 6000+port)
 	c := &Client{e: e, Addr: addr, Name: fmt.Sprintf("client%d", i)}
 	c.Sock = vudp.Listen(addr.String(), c.Name)
 	c.newSession()
